@@ -370,7 +370,7 @@ theorem chain_rungs_are_source_loops :
       | _, _ => false) = true := by decide
 
 open DDP.LadderParse in
-/-- **Minimal parentheses are faithful.** For every tree over the chain operators, the prefix operators and the conditional
+/-- **Minimal parentheses are faithful.** For every tree over the chain operators, the prefix operators, `entweder a, oder b` and the conditional
 expression `a, falls c, ansonsten b`, the parser (at the table of the DDP in /repo) reads the minimal-parentheses spelling
 back as that tree, and every larger fuel gives the same answer. Instance of `parse_pp` (`DDP/Proofs/LadderParse.lean`: any
 table, any tree, induction on the tree). -/
@@ -451,10 +451,19 @@ example : ppI ddpTbl (.bin 5 (.atom 1) (.ite (.atom 2) (.atom 7) (.atom 3))) =
       [.atom 1, .bop 5, .lp, .atom 2, .falls, .atom 7, .sonst, .atom 3, .rp] ∧
     parseAll ddpTbl [.atom 1, .bop 5, .atom 2, .falls, .atom 7, .sonst, .atom 3] =
       some (.ite (.bin 5 (.atom 1) (.atom 2)) (.atom 7) (.atom 3)) := by decide
+/-- `entweder a, oder b` is a prefix form over the loosest chain rung: its operands take whole chains without parentheses, as a
+value operand of a conditional expression it stands free, as an operand of a chain it is parenthesised -/
+example : parseAll ddpTbl [.entw, .atom 1, .bop 1, .atom 2, .oderk, .atom 3, .bop 0, .atom 4] =
+      some (.xor (.bin 1 (.atom 1) (.atom 2)) (.bin 0 (.atom 3) (.atom 4))) ∧
+    ppI ddpTbl (.ite (.xor (.atom 1) (.atom 2)) (.atom 7) (.atom 3)) = [.entw, .atom 1, .oderk, .atom 2, .falls, .atom 7, .sonst, .atom 3] ∧
+    ppI ddpTbl (.bin 1 (.xor (.atom 1) (.atom 2)) (.atom 3)) = [.lp, .entw, .atom 1, .oderk, .atom 2, .rp, .bop 1, .atom 3] ∧
+    parseAll ddpTbl [.entw, .atom 1, .oderk, .atom 2, .falls, .atom 7, .sonst, .atom 3] =
+      some (.ite (.xor (.atom 1) (.atom 2)) (.atom 7) (.atom 3)) := by decide
 /-- ill-formed sequences are rejected, not repaired -/
 example : parseAll ddpTbl [.atom 1, .bop 5] = none ∧ parseAll ddpTbl [.atom 1, .atom 2] = none ∧
     parseAll ddpTbl [.lp, .atom 1] = none ∧ parseAll ddpTbl [.bop 5, .atom 1] = none ∧
-    parseAll ddpTbl [.atom 1, .falls, .atom 7] = none ∧ parseAll ddpTbl [.atom 1, .sonst, .atom 7] = none := by decide
+    parseAll ddpTbl [.atom 1, .falls, .atom 7] = none ∧ parseAll ddpTbl [.atom 1, .sonst, .atom 7] = none ∧
+    parseAll ddpTbl [.entw, .atom 1] = none ∧ parseAll ddpTbl [.atom 1, .oderk, .atom 2] = none := by decide
 end examples
 
 end DDP.Ladder
